@@ -467,6 +467,125 @@ impl Broker {
         }
     //@end
 
+    // ---- composition across handler families (frame lemmas) -----------------------------------------------------------------
+    // A handler of one family (registry / subscriptions / calls) leaves the channel and bus-listener tables and every
+    // connection's lists of channel ends and listeners alone (that is what its contract's frame clauses say: `same_rest`,
+    // `rest_eq(..)`); then the channel and bus-listener invariants, strong forms included, carry over.
+    proof fn lemma_channel_listener_invariants_frame(&self, o: &Self)
+        requires
+            o.chan_inv(), o.bl_inv(), o.chan_owners_connected(), o.bl_owners_connected(),
+            self.channels@ =~= o.channels@, self.bus_listeners@ =~= o.bus_listeners@, self.conns@.dom() =~= o.conns@.dom(),
+            forall|c: ConnectionId| #![trigger self.conns@.contains_key(c)] o.conns@.contains_key(c) ==>
+                self.conns@[c].senders == o.conns@[c].senders && self.conns@[c].receivers == o.conns@[c].receivers
+                && self.conns@[c].bus_listeners == o.conns@[c].bus_listeners,
+        ensures
+            self.chan_inv(), self.bl_inv(), self.chan_owners_connected(), self.bl_owners_connected(),
+    {
+        assert(self.channels@ == o.channels@ && self.bus_listeners@ == o.bus_listeners@);
+        assert(self.chan_inv()) by {
+            assert forall|k: ConnectionId, c: ChannelCookie| self.conns@.contains_key(k) && #[trigger] self.conns@[k].senders@.contains(c)
+                implies self.channels@.contains_key(c) && self.channels@[c].sender.claimed_by(k.id()) by {
+                assert(o.conns@.contains_key(k)); assert(o.conns@[k].senders@.contains(c));
+            }
+            assert forall|k: ConnectionId, c: ChannelCookie| self.conns@.contains_key(k) && #[trigger] self.conns@[k].receivers@.contains(c)
+                implies self.channels@.contains_key(c) && self.channels@[c].receiver.claimed_by(k.id()) by {
+                assert(o.conns@.contains_key(k)); assert(o.conns@[k].receivers@.contains(c));
+            }
+            assert forall|k: ConnectionId, c: ChannelCookie| #![trigger self.conns@[k], self.channels@[c]] self.conns@.contains_key(k) && self.channels@.contains_key(c)
+                && self.channels@[c].sender.claimed_by(k.id()) implies self.conns@[k].senders@.contains(c) by {
+                assert(o.conns@.contains_key(k)); let _ = o.conns@[k]; let _ = o.channels@[c];
+            }
+            assert forall|k: ConnectionId, c: ChannelCookie| #![trigger self.conns@[k], self.channels@[c]] self.conns@.contains_key(k) && self.channels@.contains_key(c)
+                && self.channels@[c].receiver.claimed_by(k.id()) implies self.conns@[k].receivers@.contains(c) by {
+                assert(o.conns@.contains_key(k)); let _ = o.conns@[k]; let _ = o.channels@[c];
+            }
+        }
+        assert(self.bl_inv()) by {
+            assert forall|k: ConnectionId, c: BusListenerCookie| self.conns@.contains_key(k) && #[trigger] self.conns@[k].bus_listeners@.contains(c)
+                implies self.bus_listeners@.contains_key(c) && self.bus_listeners@[c].conn_id.id() == k.id() by {
+                assert(o.conns@.contains_key(k)); assert(o.conns@[k].bus_listeners@.contains(c));
+            }
+            assert forall|k: ConnectionId, c: BusListenerCookie| #![trigger self.conns@[k], self.bus_listeners@[c]] self.conns@.contains_key(k)
+                && self.bus_listeners@.contains_key(c) && self.bus_listeners@[c].conn_id.id() == k.id() implies self.conns@[k].bus_listeners@.contains(c) by {
+                assert(o.conns@.contains_key(k)); let _ = o.conns@[k]; let _ = o.bus_listeners@[c];
+            }
+        }
+        assert(self.chan_owners_connected()) by {
+            assert forall|c: ChannelCookie| self.channels@.contains_key(c) implies
+                (self.channels@[c].sender is Claimed ==> self.connected_id(self.channels@[c].sender.owner_id()))
+                && (self.channels@[c].receiver is Claimed ==> self.connected_id(self.channels@[c].receiver.owner_id())) by {
+                assert(o.channels@.contains_key(c));
+                if o.channels@[c].sender is Claimed {
+                    let k = choose|k: ConnectionId| o.conns@.contains_key(k) && k.id() == o.channels@[c].sender.owner_id();
+                    assert(self.conns@.contains_key(k));
+                }
+                if o.channels@[c].receiver is Claimed {
+                    let k = choose|k: ConnectionId| o.conns@.contains_key(k) && k.id() == o.channels@[c].receiver.owner_id();
+                    assert(self.conns@.contains_key(k));
+                }
+            }
+        }
+        assert(self.bl_owners_connected()) by {
+            assert forall|c: BusListenerCookie| self.bus_listeners@.contains_key(c) implies self.conns@.contains_key(self.bus_listeners@[c].conn_id) by {
+                assert(o.bus_listeners@.contains_key(c));
+            }
+        }
+    }
+
+    // Conversely, a channel or bus-listener handler leaves the registry, the call table and every connection's objects,
+    // subscriptions and calls alone; then the registry invariant carries over.
+    proof fn lemma_registry_invariant_frame(&self, o: &Self)
+        requires
+            o.reg_inv(),
+            self.obj_uuids@ =~= o.obj_uuids@, self.objs@ =~= o.objs@, self.svc_uuids@ =~= o.svc_uuids@, self.svcs@ =~= o.svcs@,
+            self.calls() =~= o.calls(), self.conns@.dom() =~= o.conns@.dom(),
+            forall|c: ConnectionId| #![trigger self.conns@.contains_key(c)] o.conns@.contains_key(c) ==>
+                self.conns@[c].objects == o.conns@[c].objects && self.conns@[c].events == o.conns@[c].events
+                && self.conns@[c].all_events == o.conns@[c].all_events && self.conns@[c].subscriptions == o.conns@[c].subscriptions
+                && self.conns@[c].calls == o.conns@[c].calls,
+        ensures
+            self.reg_inv(),
+    {
+        assert(self.obj_uuids@ == o.obj_uuids@ && self.objs@ == o.objs@ && self.svc_uuids@ == o.svc_uuids@ && self.svcs@ == o.svcs@
+            && self.calls() == o.calls());
+        assert forall|c: ConnectionId, x: ServiceCookie| o.conns@.contains_key(c) implies #[trigger] self.conns@[c].ev(x) == o.conns@[c].ev(x) by {}
+        assert(self.inv_ownership()) by {
+            assert forall|k: ConnectionId, c: ObjectCookie| self.conns@.contains_key(k) && #[trigger] self.conns@[k].objects@.contains(c)
+                implies self.obj_uuids@.contains_key(c) && self.objs@[self.obj_uuids@[c]].conn_id == k by {
+                assert(o.conns@.contains_key(k)); assert(o.conns@[k].objects@.contains(c));
+            }
+            assert forall|u: ObjectUuid| self.objs@.contains_key(u) && self.conns@.contains_key(self.objs@[u].conn_id) implies
+                self.conns@[self.objs@[u].conn_id].objects@.contains(self.objs@[u].cookie) by {
+                assert(o.objs@.contains_key(u)); assert(o.conns@.contains_key(o.objs@[u].conn_id));
+            }
+        }
+        assert(self.inv_callers()) by {
+            assert forall|x: u32| self.calls().contains_key(x) && !self.calls()[x].aborted && self.conns@.contains_key(self.calls()[x].caller_conn_id)
+                implies self.conns@[self.calls()[x].caller_conn_id].calls@.contains_key(self.calls()[x].caller_serial)
+                && self.conns@[self.calls()[x].caller_conn_id].calls@[self.calls()[x].caller_serial].0 == x by {
+                assert(o.calls().contains_key(x)); assert(o.conns@.contains_key(o.calls()[x].caller_conn_id));
+            }
+        }
+        assert(self.inv_conns()) by {
+            assert forall|c: ConnectionId| self.conns@.contains_key(c) implies self.conns@[c].inv() by { assert(o.conns@.contains_key(c)); assert(o.conns@[c].inv()); }
+        }
+        assert(self.inv_subs() && self.subscribers_connected()) by {
+            assert forall|k: (ObjectUuid, ServiceUuid), e: u32, c: ConnectionId| self.svcs@.contains_key(k) && #[trigger] self.svcs@[k].subs(e).contains(c)
+                implies self.conns@.contains_key(c) && self.conns@[c].ev(self.svcs@[k].cookie).contains(e) by {
+                assert(o.svcs@.contains_key(k)); assert(o.svcs@[k].subs(e).contains(c)); assert(o.conns@.contains_key(c));
+            }
+            assert forall|k: (ObjectUuid, ServiceUuid), c: ConnectionId| self.svcs@.contains_key(k) && #[trigger] self.svcs@[k].all_events@.contains(c)
+                implies self.conns@.contains_key(c) && self.conns@[c].all_events@.contains(self.svcs@[k].cookie) by {
+                assert(o.svcs@.contains_key(k)); assert(o.svcs@[k].all_events@.contains(c)); assert(o.conns@.contains_key(c));
+            }
+            assert forall|k: (ObjectUuid, ServiceUuid), c: ConnectionId| self.svcs@.contains_key(k) && #[trigger] self.svcs@[k].subscriptions@.contains(c)
+                implies self.conns@.contains_key(c) && self.conns@[c].subscriptions@.contains(self.svcs@[k].cookie) by {
+                assert(o.svcs@.contains_key(k)); assert(o.svcs@[k].subscriptions@.contains(c)); assert(o.conns@.contains_key(c));
+            }
+        }
+        assert forall|u: ObjectUuid| self.objs@.contains_key(u) implies self.conns@.contains_key(self.objs@[u].conn_id) by { assert(o.objs@.contains_key(u)); }
+    }
+
     // C09: "once all connections are gone the broker holds no objects, services, calls, channels, listeners or subscriptions".
     // A corollary of the strong invariants that shutdown_connection re-establishes (these are the debug_assert!s at the end
     // of Broker::run).
